@@ -2,6 +2,7 @@ import FloVerif.Driver.Util
 import FloVerif.Driver.C05
 import FloVerif.Gen.CurveClip
 import FloVerif.Model.CurveClip
+import FloVerif.Gen.Overlaps
 /-!
 Correspondence for C02: the generated `curve_intersects_curve_clip` (the whole recursion, `Gen.CurveClip` + the knot in
 `Model.CurveClip`) run at `Float` against the real function, bit for bit.
@@ -106,6 +107,53 @@ def handle (op : String) (ins outs : List String) : List Out :=
     let sh := pairs (parseNat (ins.headD "#0")) (ins.drop 1)
     let impl := pairs (parseNat (outs.headD "#0")) (outs.drop 1)
     cmpHits "shadow" sh impl
+  | "tfp" =>
+    -- ins: curve(8) point(2) accuracy #nx roots_x #ny roots_y; outs: #isSome [t].  `solve_curve_for_t_along_axis` (generated) with the
+    -- answers of `solve_basis_for_t` from the table, bit for bit
+    let pt (i : Nat) : V2 Float := ⟨hexF (ins.getD (2*i) "0"), hexF (ins.getD (2*i+1) "0")⟩
+    let point := pt 4
+    let acc := hexF (ins.getD 10 "0")
+    let nx := parseNat (ins.getD 11 "#0")
+    let rx := ((ins.drop 12).take nx).map hexF
+    let ny := parseNat (ins.getD (12 + nx) "#0")
+    let ry := ((ins.drop (13 + nx)).take ny).map hexF
+    -- the table is keyed by the whole question (equal questions have equal answers)
+    let solver (w1 w2 w3 w4 p : Float) : List Float :=
+      if w1.toBits == (pt 0).x.toBits && w2.toBits == (pt 1).x.toBits && w3.toBits == (pt 2).x.toBits && w4.toBits == (pt 3).x.toBits
+          && p.toBits == point.x.toBits then rx
+      else if w1.toBits == (pt 0).y.toBits && w2.toBits == (pt 1).y.toBits && w3.toBits == (pt 2).y.toBits && w4.toBits == (pt 3).y.toBits
+          && p.toBits == point.y.toBits then ry
+      else [nan]
+    let model := solve_curve_for_t_along_axis solver (pt 0) (pt 1) (pt 2) (pt 3) point acc
+    let implSome := parseNat (outs.headD "#0") == 1
+    let implT := hexF (outs.getD 1 "0")
+    let ok := match model with
+      | none => !implSome
+      | some t => implSome && t.toBits == implT.toBits
+    [{ field := "solve_curve_for_t_along_axis", cmp := if ok then .same 0 else .diff s!"model {model} impl {if implSome then some implT else none}", fbit := some ok }]
+  | "ovl" =>
+    -- ins: curve1(8) curve2(8) then four optional t_for_point answers (c1(c2.start), c1(c2.end), c2(c1.start), c2(c1.end));
+    -- outs: #isSome [4 numbers].  `overlapping_region` (generated), bit for bit
+    let pt (i : Nat) : V2 Float := ⟨hexF (ins.getD (2*i) "0"), hexF (ins.getD (2*i+1) "0")⟩
+    let rec opts : Nat → List String → List (Option Float)
+      | 0, _ => []
+      | k + 1, l => if parseNat (l.headD "#0") == 1 then some (hexF (l.getD 1 "0")) :: opts k (l.drop 2) else none :: opts k (l.drop 1)
+    let q := opts 4 (ins.drop 16)
+    let same (a b : V2 Float) : Bool := a.x.toBits == b.x.toBits && a.y.toBits == b.y.toBits
+    let c1 : T4 (V2 Float) (V2 Float) (V2 Float) (V2 Float) := ⟨pt 0, pt 1, pt 2, pt 3⟩
+    let c2 : T4 (V2 Float) (V2 Float) (V2 Float) (V2 Float) := ⟨pt 4, pt 5, pt 6, pt 7⟩
+    let t1 (p : V2 Float) : Option Float := if same p c2.t0 then (q.getD 0 none) else if same p c2.t3 then (q.getD 1 none) else some nan
+    let t2 (p : V2 Float) : Option Float := if same p c1.t0 then (q.getD 2 none) else if same p c1.t3 then (q.getD 3 none) else some nan
+    let model := overlapping_region t1 t2 c1 c2
+    let implSome := parseNat (outs.headD "#0") == 1
+    let impl := ((outs.drop 1).take 4).map hexF
+    let ok := match model with
+      | none => !implSome
+      | some r => implSome && [r.t0.t0, r.t0.t1, r.t1.t0, r.t1.t1].map (·.toBits) == impl.map (·.toBits)
+    let show_ : String := match model with
+      | none => "none"
+      | some r => s!"some (({r.t0.t0}, {r.t0.t1}), ({r.t1.t0}, {r.t1.t1}))"
+    [{ field := "overlapping_region", cmp := if ok then .same 0 else .diff s!"model {show_} impl some={implSome} {impl}", fbit := some ok }]
   | _ => [{ field := "unknown-op " ++ op, cmp := .diff "driver does not know this operation", fbit := none }]
 
 end Driver.C02
